@@ -4,6 +4,7 @@ import (
 	"bufio"
 	"bytes"
 	"context"
+	"encoding/base64"
 	"encoding/binary"
 	"errors"
 	"fmt"
@@ -13,6 +14,7 @@ import (
 	"net/url"
 	"slices"
 	"strconv"
+	"strings"
 	"sync"
 	"time"
 
@@ -499,13 +501,29 @@ func lpmMessage(msg proto.Message) ([]byte, error) {
 	return append(header, data...), nil
 }
 
+// lpmTrailerValue returns the wire form of a metadata value for the HTTP/1-style block of a gRPC-Web header or trailer frame.
+// gRPC-Go hands over binary (-bin) values decoded, so they are base64-encoded again like gRPC does it on the wire
+// (PROTOCOL-HTTP2, Binary-Header), and no other value may contain a line break: written as-is, a value such as
+// "x\r\ngrpc-status: 0" would add a line of its own to the block and overrule the actual status of the call.
+func lpmTrailerValue(k, v string) string {
+	// metadata.MD keys are lowercase, this is the test gRPC-Go itself uses
+	if strings.HasSuffix(k, "-bin") {
+		return base64.RawStdEncoding.EncodeToString([]byte(v))
+	}
+
+	return trailerNewlineReplacer.Replace(v)
+}
+
+// like net/http does for header values
+var trailerNewlineReplacer = strings.NewReplacer("\n", " ", "\r", " ")
+
 // format gRPC-Web trailer as gRPC length-prefixed message.
 func lpmTrailer(md metadata.MD) []byte {
 	buf := bytes.NewBuffer(nil)
 
 	for k, vs := range md {
 		for _, v := range vs {
-			buf.WriteString(fmt.Sprintf("%s: %s\r\n", k, v))
+			buf.WriteString(fmt.Sprintf("%s: %s\r\n", k, lpmTrailerValue(k, v)))
 		}
 	}
 
